@@ -158,7 +158,7 @@ static void bundle_hmac(const pc_t *s)
         if (thorough || s->n <= blk + 1 || kl[j] == 0 || kl[j] == blk || kl[j] == 2 * blk + 3)
         {
             pc.y = 2;
-            parts(&pc, s->n, (kl[j] == blk && (thorough || s->n <= 129)) ? 1 : 0, blk);
+            parts(&pc, s->n, (kl[j] == blk && s->n <= (thorough ? 2 * blk + 1 : 129)) ? 1 : 0, blk);
         }
         if (kl[j] == blk || (thorough && (kl[j] == 1 || kl[j] == 2 * blk + 3)))
         {
@@ -294,6 +294,10 @@ static void bundle_cbc(const pc_t *s)
         {
             for (o = 0; o >= -1; o--)
             {
+                if (level == 2 && (k != (o ? 1 : 0)))
+                {
+                    continue; /* long inputs: one key per direction/placement */
+                }
                 pc.y = y; pc.k = k; pc.o = o; pc.i = 0;
                 parts(&pc, s->n, level, 4);
             }
@@ -334,7 +338,7 @@ static void bundle_gcm(const pc_t *s)
         /* partitions */
         for (j = 0; j < 5 && !B.stop; j++)
         {
-            if (level == 0 && s->n > 65 && j != 2)
+            if ((level == 0 || level == 2) && s->n > 65 && j != 2)
             {
                 continue;
             }
@@ -343,7 +347,11 @@ static void bundle_gcm(const pc_t *s)
             {
                 pc.o = o;
                 /* quick: 2-cuts for AAD 0, 13, 17; 1-cuts for every AAD of the set */
-                parts(&pc, s->n, (level == 1 && !thorough && (j == 1 || j == 3)) ? 0 : level, 128);
+                if (level == 2 && o < 0)
+                {
+                    continue;
+                }
+                parts(&pc, s->n, (level == 1 && (!thorough || s->n > 65) && (j == 1 || j == 3)) ? 0 : level, 128);
             }
         }
         /* tag lengths, fresh context and re-used context */
@@ -576,7 +584,19 @@ static void build_bundles(void)
         {
             int r = n % blk, padb = blk - (blk == 128 ? 16 : 8);
             int window = r >= blk - 2 || r <= 1 || (r >= padb - 2 && r <= padb + 1);
-            int level = (!wrapper && (thorough || n <= blk + 1 || (window && (blk == 64 || n <= 2 * blk + 1)) || (blk == 64 && n <= 2 * blk + 1))) ? 1 : 0;
+            int level;
+            if (wrapper)
+            {
+                level = 0;
+            }
+            else if (thorough)
+            {
+                level = (blk == 64 || n <= 2 * blk + 1 || window) ? 1 : 0;
+            }
+            else
+            {
+                level = (n <= blk + 1 || (window && (blk == 64 || n <= 2 * blk + 1)) || (blk == 64 && n <= 2 * blk + 1)) ? 1 : 0;
+            }
             add_bundle(T_HASH, g, n, level, 0, (double) n * n * (level ? n : 4) / blk + 300);
         }
         for (j = 0; j < NGRID && thorough; j++)
@@ -590,7 +610,7 @@ static void build_bundles(void)
         int blk = ref_hblock[MAPI[g].halg];
         for (n = 0; n <= 4 * blk + 1; n++)
         {
-            add_bundle(T_HMAC, g, n, 0, 0, (double) n * n * (n <= 129 || thorough ? n : 20) / blk + 2000);
+            add_bundle(T_HMAC, g, n, 0, 0, (double) n * n * (n <= (thorough ? 2 * blk + 1 : 129) ? n : 20) / blk + 2000);
         }
         for (j = 0; j < NGRID && thorough; j++)
         {
@@ -642,7 +662,7 @@ static void build_bundles(void)
     {
         for (n = 0; n <= 260; n++)
         {
-            int level = (n <= 65 || thorough) ? 1 : 0;
+            int level = (n <= 65 || (thorough && n <= 130)) ? 1 : 0;
             add_bundle(T_GCM, g, n, level, 0, level ? 40.0 * n * n * n + 5e4 : 300.0 * n * n);
         }
         for (j = 0; j < NGRID && thorough; j++)
